@@ -504,7 +504,7 @@ func init() {
 			return judgePreload(c, s.BlackBox(), &pc)
 		},
 		Run: func(c *CheckCtx) {
-			c.rule = "programs (corpus and generated) split at top-level statement boundaries into 1-3 preload files plus a target; `.ti-loader.json` lists the preload files in order (one list in eight also names a file that does not exist, before, between or after them: a ti that still runs must behave as if the entry were not there); oracle: out(target | preloads) == out(concatenation) restricted to the target's rows and rebased, and no output line names a preloaded file; modes plain and -i; in plain mode up to two call rows of the target are also hovered (--hover --row) in both arrangements and must name the same method. distinct_nontrivial = distinct (split, mode) whose target rows carry output"
+			c.rule = "programs (corpus and generated) split at top-level statement boundaries into 1-3 preload files plus a target; `.ti-loader.json` lists the preload files in order (one list in six has a preloaded file with the target's own base name in another directory; one list in eight also names a file that does not exist, before, between or after them: a ti that still runs must behave as if the entry were not there); oracle: out(target | preloads) == out(concatenation) restricted to the target's rows and rebased, and no output line names a preloaded file; modes plain and -i; in plain mode up to two call rows of the target are also hovered (--hover --row) in both arrangements and must name the same method. distinct_nontrivial = distinct (split, mode) whose target rows carry output"
 			c.assumptions = []string{"splits in which a run crashes or hangs are skipped (C01/C02)"}
 			c.bbEvery = 5 // preloading lives in main(): one case in five runs in a real process
 			r := c.RNG.Sub(18)
@@ -579,6 +579,21 @@ func init() {
 			// preload files (their order matters)
 			for k := 0; k < c.N(120, 2500); k++ {
 				jobs = append(jobs, genPreloadTemplate(r))
+			}
+			// one list in six has a preloaded file with the target's own base name
+			// in another directory (lib/main.rb next to main.rb)
+			for _, pc := range jobs {
+				if len(pc.Parts) >= 2 && r.Chance(1, 6) {
+					names := make([]string, len(pc.Parts)-1)
+					copy(names, pc.Names)
+					for i := range names {
+						if names[i] == "" {
+							names[i] = fmt.Sprintf("pre%d.rb", i+1)
+						}
+					}
+					names[r.Intn(len(names))] = Pick(r, []string{"lib/", "vendor/deep/"}) + targetFile
+					pc.Names = names
+				}
 			}
 			// one list in eight also names a file that does not exist
 			for _, pc := range jobs {
